@@ -241,6 +241,32 @@ def headSnapshotWriteBack (cfg : Cfg) (st : St) (W : Nat) (rc : Bytes → RcAns)
     ({ pending := r.pending, enabled := !r.pending.isEmpty, last := W }, some r)
   else (onLog cfg st ev blockTime, none)
 
+/-! ## `Run` returns and the supervisor starts it again -/
+
+/-- `Run` has returned with an error (block-time lookup of a log, log / head subscription error, guardian-set poll) and the
+supervisor calls `Run` again **on the same `Watcher` value**. `w.pending` is a field of the `Watcher`, initialised only by
+`NewEthWatcher` (watcher.go:152) and never assigned by `Run`: what was pending stays pending. `Run` builds a new
+`BlockPollConnector` (watcher.go:183): its `enabled` flag starts false (poller.go:33) - whatever is pending - and its
+`lastBlock` is the head `W` the node serves when the new poller starts (poller.go:56). The poller is switched on again by the
+next log insertion (watcher.go:375). -/
+def restart (st : St) (W : Nat) : St := { pending := st.pending, enabled := false, last := W }
+
+/-- NOT the code: the variant in which `Run` begins with `w.pending = make(map[pendingKey]*pendingMessage)` ("fresh
+connection, fresh state"). Kept only for the negation witness `c10_restart_fresh_witness`. -/
+def restartFresh (_st : St) (W : Nat) : St := { pending := [], enabled := false, last := W }
+
+/-! ## Guardian-set fetch (watcher.go `fetchAndUpdateGuardianSet`) -/
+
+/-- One call of `fetchAndUpdateGuardianSet`. `cur` = `w.currentGuardianSet` (`none` = nil: index 0 is a valid index),
+`chain` = what the two contract calls `getCurrentGuardianSetIndex` / `getGuardianSet(index)` returned (`none` = one of them
+failed). Result: the new `w.currentGuardianSet`, what is sent on `setC` (index and the key list exactly as read), error?. -/
+def gsFetch (cur : Option Nat) (chain : Option (Nat × List Bytes)) : Option Nat × Option (Nat × List Bytes) × Bool :=
+  match chain with
+  | none => (cur, none, true)                              -- watcher.go:600-604
+  | some (idx, keys) =>
+    if cur = some idx then (cur, none, false)              -- watcher.go:608-610 already current
+    else (some idx, some (idx, keys), false)               -- watcher.go:616-623
+
 /-! ## Re-observation (by_transaction.go, watcher.go:225-312) -/
 
 /-- A receipt log as the code sees it; `parse` is the (trusted) ABI decoder's verdict on it. -/
